@@ -58,6 +58,7 @@ def s_map_save(eng, path, argv, callee):
 
 def s_branch(eng, path, argv, callee):
     r = path.deref(argv[0])
+    _two(path, r)
     o = enum_obj(r.disc())
     cont = Obj('p%d' % next(Obj.cnt))
     cont.fields[0] = r.get(('as', 'Ok')).get(0)
@@ -72,24 +73,35 @@ def s_from_residual(eng, path, argv, callee):
     return enum_obj(1, 'Err', opaque_obj('residual'))
 
 
+def _two(path, o):
+    """Option / Result have exactly two variants."""
+    d = o.disc()
+    if not z3.is_int_value(d):
+        c = z3.Or(d == 0, d == 1)
+        if not any(c.eq(x) for x in path.cond):
+            path.cond.append(c)
+    return d
+
+
 def s_is_some(eng, path, argv, callee):
-    return bool_obj(path.deref(argv[0]).disc() == 1)
+    return bool_obj(_two(path, path.deref(argv[0])) == 1)
 
 
 def s_is_none(eng, path, argv, callee):
-    return bool_obj(path.deref(argv[0]).disc() == 0)
+    return bool_obj(_two(path, path.deref(argv[0])) == 0)
 
 
 def s_is_ok(eng, path, argv, callee):
-    return bool_obj(path.deref(argv[0]).disc() == 0)
+    return bool_obj(_two(path, path.deref(argv[0])) == 0)
 
 
 def s_is_err(eng, path, argv, callee):
-    return bool_obj(path.deref(argv[0]).disc() == 1)
+    return bool_obj(_two(path, path.deref(argv[0])) == 1)
 
 
 def _unwrap(eng, path, argv, good_disc, variant, what):
     o = path.deref(argv[0])
+    _two(path, o)
     bad = o.disc() != good_disc
     if eng.feasible(path.cond + [bad]):
         p2 = path.fork()
